@@ -451,6 +451,11 @@ def run(ctx):
     for t in range(ctx.scale(110, 600)):
         nobjs = rng.choice([1, 2, 2, 3, 3, 4, 5])
         cases.append(c16.gen_grid_case(rng, nobjs, [rng.random() < 0.5 for _ in range(nobjs)]))
+        if rng.random() < 0.3:
+            sc = c16.shift_case(cases[-1], rng)                 # "large offset" family: objectives around +-2^40 .. 1e15, same small ranges
+            if sc is not None:
+                cases.append(sc)
+                dist["indicator_large_offset_cases"] = dist.get("indicator_large_offset_cases", 0) + 1
     for (nobjs, dirs, ref, st) in cases:
         b = c16.ref_bounds(nobjs, ref)
         lo, hi = ([float(x) for x in b[0]], [float(x) for x in b[1]]) if b is not None else ([0.0] * nobjs, [1.0] * nobjs)
